@@ -7,6 +7,7 @@ Written from the FeliCa Lite / Lite-S user's manual rules:
     IV = RC1, key (SK1, SK2);
   * MAC_A (block 91h, Lite-S): first plaintext word = block numbers (read: 2 bytes each, padded FFh;
     write: WCNT[0..2], 00, block number, 00, 91h, 00); read key (SK1, SK2), write key (SK2, SK1);
+  * the card derives the session key when RC is written and keeps it until RC is written again;
   * Lite-S: writing RC clears EXT_AUTH; a MAC_A write of STATE with EXT_AUTH = 1 authenticates the
     reader; WCNT counts successful writes.
 The DES primitive is sim/auth_des.py (FIPS 46-3 tables).
@@ -89,6 +90,7 @@ class SimFelicaLite(object):
                 self.mem[b][:] = v
         self.ext_auth = False
         self.rc_written = False
+        self.sess_ck = bytes(self.mem[CK])     # card key the running session was derived from
         self.log = []          # (command name, details) per processed frame
 
     # -- provisioning helpers (harness side) -------------------------------------------------
@@ -199,10 +201,10 @@ class SimFelicaLite(object):
                 if i != len(blocks) - 1 or (b == MAC_A and self.kind != "lites"):
                     return self._err(1 << i, 0xA8)
                 if b == MAC:
-                    m = mac_read(out, self.mem[CK], self.mem[RC])
+                    m = mac_read(out, self.sess_ck, self.mem[RC])
                     out += m + bytes(8)
                 else:
-                    m = mac_a_read(blocks, out, self.mem[CK], self.mem[RC])
+                    m = mac_a_read(blocks, out, self.sess_ck, self.mem[RC])
                     out += m + bytes(self.mem[WCNT][0:3]) + bytes(5)
                 names.append(b)
                 continue
@@ -278,7 +280,7 @@ class SimFelicaLite(object):
                 self.log.append(("write-refused", b))
                 return self._err(0x01, 0xA8)
             d, ma = data[0:16], data[16:32]
-            good = mac_a_write(self.mem[WCNT][0:3], b, d, self.mem[CK], self.mem[RC])
+            good = mac_a_write(self.mem[WCNT][0:3], b, d, self.sess_ck, self.mem[RC])
             if not self.rc_written or ma[0:8] != good or ma[8:11] != bytes(self.mem[WCNT][0:3]):
                 self.log.append(("write-mac-refused", b))
                 return self._err(0x02, 0xB2)
@@ -290,6 +292,7 @@ class SimFelicaLite(object):
     def _store(self, b, data):
         if b == RC:
             self.mem[RC][:] = data
+            self.sess_ck = bytes(self.mem[CK])
             self.rc_written = True
             self.ext_auth = False
             return
